@@ -307,3 +307,169 @@ def apply_form(form, c, A, b, ints, ws):
     elif form == "gen_warm":
         ws = None if ws is None else (v for v in list(ws))      # warm_start is consumed once (tuple(warm_start)): a one-shot iterator is fine
     return c, A, b, ints, ws
+
+
+# ---------------------------------------------------------------------------------- W: work volume (round 3)
+def _permute(rng, inst):
+    """random variable order and row order (the answer does not depend on them)"""
+    n = len(inst["c"])
+    perm = list(range(n))
+    rng.shuffle(perm)                                    # new position k holds old variable perm[k]
+    inv = {old: k for k, old in enumerate(perm)}
+    rows = list(zip(inst["A"], inst["b"]))
+    rng.shuffle(rows)
+    t = dict(inst)
+    t["c"] = [inst["c"][perm[k]] for k in range(n)]
+    t["A"] = [[r[perm[k]] for k in range(n)] for r, _ in rows]
+    t["b"] = [bb for _, bb in rows]
+    t["ints"] = sorted(inv[j] for j in inst["ints"])
+    if inst.get("known") and inst["known"][2] is not None:
+        t["known"] = (inst["known"][0], inst["known"][1], [inst["known"][2][perm[k]] for k in range(n)])
+    t["x0"] = [0] * n
+    return t
+
+
+def late_improvement_trap(rng, K, sense, flipped):
+    """B&B work family: bulk variables x, y (cost 1 each) must cover 2x + 2y + z + w >= 2K+1 under 2x + 2y <= 2K+1 (parity: x, y alone
+    never close it); z is an expensive filler (cost P, found at once), w a cheap one (cost 1) that needs y >= T, which best-first B&B
+    reaches only after about 4T nodes: the incumbent of the first thousands of nodes is NOT optimal, the tree has about 4K nodes.
+    Optimum by construction: x + y = K, w = 1, cost K + 1.
+    sense: 'min' (positive objective) or 'max' (negated costs: NEGATIVE incumbent).  flipped: substitute x = K - x', y = K - y'
+    (then maximising gives a POSITIVE and minimising a NEGATIVE objective, constant dropped)."""
+    T = rng.randint(int(0.85 * K), int(0.95 * K))
+    P = rng.choice([4, 7, 10, 15])
+    zmax = rng.choice([1, 2, 3])
+    cost = [1, 1, P, 1]
+    A = [[-2, -2, -1, -1], [2, 2, 0, 0], [0, -1, 0, T], [0, 0, 1, 0], [0, 0, 0, 1]]
+    b = [-(2 * K + 1), 2 * K + 1, 0, zmax, 1]
+    opt = K + 1
+    const = 0
+    if flipped:
+        # x = K - x', y = K - y':  a_x x = a_x K - a_x x'
+        for i in range(len(A)):
+            b[i] -= (A[i][0] + A[i][1]) * K
+            A[i][0], A[i][1] = -A[i][0], -A[i][1]
+        A += [[1, 0, 0, 0], [0, 1, 0, 0]]                 # x >= 0  <=>  x' <= K
+        b += [K, K]
+        const = 2 * K
+        cost = [-1, -1, P, 1]                             # x + y = 2K - x' - y'
+    value = opt - const
+    if sense == "max":
+        c = [-v for v in cost]
+        value = -value
+    else:
+        c = cost
+    inst = {"c": c, "A": A, "b": b, "ints": [0, 1, 2, 3], "minimize": sense == "min", "known": ("OPT", value, None),
+            "family": f"work:trap-{sense}{'-flipped' if flipped else ''}", "x0": [0] * 4, "timeout": 240, "K": K}
+    return _permute(rng, inst)
+
+
+def parity_infeasible(rng, K):
+    """2x + 2y = 2K + 1 inside a box: no integer point; the whole tree has to be explored to say INFEASIBLE"""
+    A = [[2, 2], [-2, -2], [1, 0], [0, 1]]
+    b = [2 * K + 1, -(2 * K + 1), K, K]
+    c = [rng.choice([1, 2, -1]), rng.choice([1, 3, -2])]
+    return _permute(rng, {"c": c, "A": A, "b": b, "ints": [0, 1], "minimize": rng.random() < 0.5, "known": ("INF", 0, None),
+                          "family": "work:parity-infeasible", "x0": [0, 0], "timeout": 240, "K": K})
+
+
+def klee_minty(rng, n, sense, phase1=False):
+    """Klee-Minty cube: Bland's rule needs about 1.62^n pivots (1219 for n = 14, 3193 for 16, 8361 for 18, 13529 for 19).
+    max sum 2^(n-1-j) x_j, 2 sum_{j<i} 2^(i-j) x_j + x_i <= 5^(i+1): optimum x = (0,..,0,5^n), value 5^n; all numbers < 2^53."""
+    c = [2 ** (n - 1 - j) for j in range(n)]
+    A = [[2 ** (i - j + 1) if j < i else (1 if j == i else 0) for j in range(n)] for i in range(n)]
+    b = [5 ** (i + 1) for i in range(n)]
+    if phase1:
+        A.append([0] * (n - 1) + [-1])                    # x_n >= 1: negative rhs, phase 1 runs first; the optimum is unchanged
+        b.append(-1)
+    value = 5 ** n
+    if sense == "min":
+        c = [-v for v in c]
+        value = -value
+    ints = sorted(rng.sample(range(n), rng.choice([0, 1, n])))
+    point = [0] * (n - 1) + [5 ** n]
+    # NOT permuted: the pivot count of Bland's rule depends on the variable order, and this order is the bad one
+    return {"c": c, "A": A, "b": b, "ints": ints, "minimize": sense == "min", "known": ("OPT", value, point),
+            "family": "work:klee-minty" + ("-phase1" if phase1 else ""), "x0": [0] * n, "timeout": 240, "n_km": n}
+
+
+def work_instances(rng, big=False):
+    """(inst, variants): B&B trees of > 2^7, 2^10, 2^11, 2^12, 10^4 (thorough: 10^5) explored nodes and single LPs with > 2^10, 2^11,
+    2^12, 10^4 (thorough: 10^5) pivots, answers known by construction"""
+    out = []
+    base = {"heuristics": True}
+    combos = [("min", False), ("max", False), ("min", True), ("max", True)]
+    sizes = [40, 300, 560, 1100, 2600, 5200] + ([26000] if big else [])
+    for k_i, K in enumerate(sizes):
+        picks = combos if K <= 1100 else [combos[(k_i + t) % 4] for t in range(2)]
+        if K >= 26000:
+            picks = [rng.choice(combos)]
+        for sense, flipped in picks:
+            inst = late_improvement_trap(rng, K + rng.randint(0, K // 10), sense, flipped)
+            big_nodes = {"max_nodes": 10 * 100000} if K >= 20000 else {}
+            vs = [dict(base, **big_nodes)]
+            if K <= 1100:
+                vs.append(dict(heuristics=False, **big_nodes))
+                vs.append(dict(heuristics=False, solution_limit=rng.choice([2, 50]), **big_nodes))
+            out.append((inst, vs))
+    for K in [40, 300, 1100] + ([2600] if big else []):
+        out.append((parity_infeasible(rng, K), [dict(base), dict(heuristics=False)]))
+    for n in [8, 14, 16, 17, 19] + ([24] if big else []):
+        for sense in (["max", "min"] if n <= 17 else [rng.choice(["max", "min"])]):
+            inst = klee_minty(rng, n, sense, phase1=rng.random() < 0.4)
+            out.append((inst, [dict(base, max_iter=10**7), dict(heuristics=False, max_iter=10**7, form="float_tuple")]))
+    # the documented iteration cap itself: default max_iter = 10000 < pivots needed -> the answer must be MAX_ITER, not a "solution"
+    inst = klee_minty(rng, 19, "max")
+    inst["known"] = ("CAP", 0, None)
+    inst["family"] = "work:klee-minty-default-cap"
+    out.append((inst, [dict(base)]))
+    return out
+
+
+# ---------------------------------------------------------------------------------- X: float forms and extremes (round 3)
+def float_forms(rng, inst):
+    """the same instance written with -0.0 for every zero and integral floats for every number (33.0 for 33): the verdict must be the
+    one of the integer instance (exact oracle)"""
+    t = dict(inst)
+    f = lambda v: (-0.0 if v == 0 and rng.random() < 0.7 else float(v))  # noqa: E731
+    t["c"] = [f(v) for v in inst["c"]]
+    t["A"] = [[f(v) for v in r] for r in inst["A"]]
+    t["b"] = [f(v) for v in inst["b"]]
+    t["family"] = "float:negzero-integral"
+    return t
+
+
+def inf_rows(rng, inst):
+    """extra rows with right-hand side +inf (no constraint at all): verdict of the instance without them"""
+    t = dict(inst)
+    n = len(inst["c"])
+    t["A"] = [list(r) for r in inst["A"]]
+    t["b"] = list(inst["b"])
+    for _ in range(rng.choice([1, 2])):
+        pos = rng.randrange(len(t["b"]) + 1)
+        t["A"].insert(pos, [rng.randint(-3, 4) for _ in range(n)])
+        t["b"].insert(pos, float("inf"))
+    t["family"] = "float:inf-rhs"
+    t["reference"] = {k: inst[k] for k in ("c", "A", "b", "ints", "minimize")}
+    return t
+
+
+def extreme_observations(rng, inst):
+    """observation only: NaN entry, costs near 1e308, 2^60 cancellation - outcome classes are counted, never judged as violations"""
+    out = []
+    n = len(inst["c"])
+    t = dict(inst)
+    t["A"] = [list(r) for r in inst["A"]]
+    t["A"][rng.randrange(len(t["A"]))][rng.randrange(n)] = float("nan")
+    t["family"] = "observation:nan-entry"
+    out.append(t)
+    t = dict(inst)
+    t["c"] = [v * 1e307 for v in inst["c"]]
+    t["family"] = "observation:cost-1e308"
+    out.append(t)
+    t = dict(inst)
+    t["A"] = [list(r) for r in inst["A"]] + [[2.0**60, -(2.0**60)] + [1.0] * (n - 2)] if n >= 2 else [list(r) for r in inst["A"]]
+    t["b"] = list(inst["b"]) + ([1.0] if n >= 2 else [])
+    t["family"] = "observation:cancel-2^60"
+    out.append(t)
+    return out
